@@ -176,6 +176,23 @@ class PlotHook:
                                 self.fail("contour2d:peak", f"marker of azimuth {a_} at grid index {gi}, allowed {az['mcp']}", sline, cv, inst)
                         if list(mk[0].get_ydata()) != list(obj.azimuths):
                             self.fail("contour2d:azimuths", f"markers at azimuths {list(mk[0].get_ydata())}", sline, cv, inst)
+                if name == "plot_azimuthal_contour_3d" and out is not None and all(a["ncv"] >= 2 for a in sline["az"]):
+                    # the 3-D markers: the mean-curve peak of every azimuth, and the FIRST azimuth once more at 180 degrees
+                    fig, ax = out
+                    sc = [c_ for c_ in ax.collections if hasattr(c_, "_offsets3d") and len(c_._offsets3d[0]) == len(obj.azimuths) + 1]
+                    try:
+                        fpk, apk = obj.mean_curve_peak_by_azimuth(distribution=dm)
+                    except Exception:
+                        fpk = None
+                    if fpk is not None:
+                        if len(sc) != 1:
+                            self.fail("contour3d:markers", f"{len(sc)} peak-marker collections with {len(obj.azimuths) + 1} points", sline, cv, inst)
+                        else:
+                            xs, ys, zs = (np.asarray(v, dtype=float) for v in sc[0]._offsets3d)
+                            want = (np.log10(np.array([*fpk, fpk[0]])), np.array([*obj.azimuths, 180.0]), np.array([*apk, apk[0]]) * 1.05)
+                            if not (np.allclose(xs, want[0], rtol=1e-12) and np.allclose(ys, want[1]) and np.allclose(zs, want[2], rtol=1e-12)):
+                                self.fail("contour3d:peaks", f"3-D peak markers (log f, azimuth, amplitude) {xs.tolist()}, {ys.tolist()}, {zs.tolist()} are not the "
+                                          f"per-azimuth mean-curve peaks closed at 180 degrees with the first azimuth", sline, cv, inst)
                 plt.close("all")
         self.traces.append(dict(cv=cv, s0=p0, ev=events))
         self.trace_meta.append((cv, s, inst.name()))
